@@ -102,7 +102,13 @@ func (c *ClusterNode) RPCSendShard(args *RPCSendShardRequest, reply *RPCSendShar
 	// Does this generate a lot of syscalls? If so, we can switch to buffered
 	// writers but we need to keep track of the file descriptor across RPC
 	// calls. Let's see if this is a problem first, we can optimize later.
-	f, err := os.OpenFile(shardPath, os.O_APPEND|os.O_CREATE|os.O_WRONLY, 0644)
+	flags := os.O_APPEND | os.O_CREATE | os.O_WRONLY
+	if args.ChunkIndex == 0 {
+		// A new transfer starts from scratch, there may be a partial file left
+		// over from an earlier transfer that was interrupted.
+		flags |= os.O_TRUNC
+	}
+	f, err := os.OpenFile(shardPath, flags, 0644)
 	if err != nil {
 		return fmt.Errorf("could not open shard file: %w", err)
 	}
